@@ -1,0 +1,22 @@
+//! C05 hooks: public wrappers around the crate-private inbound decoders.
+//! Add-only; compiled only with the `verif-hooks` feature.
+
+use crate::network::{P2PEvent, RequestResponseEnvelope, WireMessage};
+
+/// `network::parse_protocol_message`, unchanged.
+pub fn parse_protocol_message(bytes: &[u8], source: &str) -> Option<P2PEvent> {
+    crate::network::parse_protocol_message(bytes, source)
+}
+
+/// Decode a `WireMessage` with the decoder the receive path uses and return its
+/// canonical re-encoding together with the number of input bytes left over.
+pub fn wire_message_reencode(bytes: &[u8]) -> Option<(Vec<u8>, usize)> {
+    let (m, rest) = postcard::take_from_bytes::<WireMessage>(bytes).ok()?;
+    Some((postcard::to_stdvec(&m).ok()?, rest.len()))
+}
+
+/// Same for the `/rr/` request-response envelope.
+pub fn envelope_reencode(bytes: &[u8]) -> Option<(Vec<u8>, usize)> {
+    let (m, rest) = postcard::take_from_bytes::<RequestResponseEnvelope>(bytes).ok()?;
+    Some((postcard::to_stdvec(&m).ok()?, rest.len()))
+}
